@@ -26,6 +26,7 @@ def run(rep, prog, tier):
     rep.rule('C20.4', 'only the last-yielded one-pass packet is flagged', floor=2)
     rep.rule('C20.5', 'compression wraps everything; CompressedData import restores the setting', floor=5)
     rep.rule('C20.6', 'literal / one-pass / compressed layouts and PGPMessage.new wiring', floor=9)
+    rep.rule('C20.7', 'packet length encodings: every encoding of a length (1/2/5 octets, partial chains) reads back to the same body', floor=5)
     rep.assume('SorteDeque iteration order is the order of the trailing signatures; reversed() is its exact reverse (ties included)')
 
     M = prog.cls('pgpy.pgp', 'PGPMessage')
@@ -185,6 +186,7 @@ def run(rep, prog, tier):
 
     compression_pairs(rep, prog)
     import_arms(rep, prog, M)
+    length_codec(rep, prog)
 
     # ---- C20.6 layouts
     ops = ops_cls.methods['__bytearray__']
@@ -375,10 +377,46 @@ def produced_format(text, data):
     return None
 
 
+def _window(container_w):
+    w = container_w
+    if w is None:
+        return None
+    if -15 <= w <= -8:
+        return ('raw', -w)
+    if 8 <= w <= 15:
+        return ('zlib', w)
+    if w == 0:
+        return ('zlib', 15)
+    return None
+
+
+def streaming_format(text, data):
+    """Decompressor-object forms: zlib.decompressobj([wbits]).decompress(data[, max_length]) / bz2.BZ2Decompressor().decompress(..).
+    -> (container, window, bounded?, decompressor text) or None."""
+    m = re.match(r'^(zlib\.decompressobj\(([^()]*)\))\.decompress\((.*)\)$', text)
+    mb = re.match(r'^(bz2\.BZ2Decompressor\(\))\.decompress\((.*)\)$', text)
+    if m:
+        dobj, ctor, call = m.group(1), [a.strip() for a in m.group(2).split(',') if a.strip()], _call_args('f(%s)' % m.group(3), 'f')
+        fmt = _window(_wbits(ctor, 0))
+    elif mb:
+        dobj, call = mb.group(1), _call_args('f(%s)' % mb.group(2), 'f')
+        fmt = ('bz2', 0)
+    else:
+        return None
+    if fmt is None or not call or call[0] not in (data, 'bytes(%s)' % data):
+        return None
+    limit = [a for a in call[1:]]
+    bounded = any(_int(a.split('=')[-1]) != 0 and a.split('=')[-1] not in ('-1',) for a in limit)
+    return fmt[0], fmt[1], bounded, dobj
+
+
 def accepted_format(text, data):
     """(container, window bits) a decompress arm accepts for `data`; None when not modelled."""
     if text == data:
         return ('identity', 0)
+    st = streaming_format(text, data)
+    if st is not None:
+        return st[0], st[1]
     a = _call_args(text, 'zlib.decompress')
     if a is not None and a and a[0] in (data, 'bytes(%s)' % data):
         w = _wbits(a, 1)
@@ -414,6 +452,23 @@ def compression_pairs(rep, prog):
         for f, fmt in ((fc, produced_format), (fd, accepted_format)):
             outs = [s for s in Interp(prog, Scenario(inline=noinline)).run(f, self_val=enum_const(prog, 'CompressionAlgorithm', m)) if s.raised is None]
             texts = sorted({render(s.ret) for s in outs})
+            if f is fd:
+                # the output may not be truncated silently: a slice of the result, or a max_length without a check that nothing is left
+                for s in outs:
+                    r = render(s.ret)
+                    cut = re.match(r'^SLICE\((.*);[^;]*;[^;]*\)$', r)
+                    inner = cut.group(1) if cut else r
+                    stf = streaming_format(inner, f.params[1])
+                    checked = stf is not None and any(('%s.%s' % (stf[3], a)) in fct[0] for fct in s.facts for a in ('unconsumed_tail', 'eof', 'needs_input'))
+                    silent = (cut is not None and accepted_format(inner, f.params[1]) is not None) or (stf is not None and stf[2] and not checked)
+                    rep.check(not silent, 'C20.5', 'CompressionAlgorithm.decompress', '%s: %s%s' % (m, r, '' if not stf else ' (decisions %s)' % fact_texts(s.facts)),
+                              'a compressed packet is read back whole: the decompressed output may not be cut off (slice, max_length) unless the '
+                              'remainder is checked (unconsumed_tail / eof / needs_input) and the excess refused', where=fd.where, scenario=m)
+                # a cut result is still the output of the decompressor inside: pair the formats on that
+                def uncut(t, data=f.params[1]):
+                    mc = re.match(r'^SLICE\((.*);[^;]*;[^;]*\)$', t)
+                    return mc.group(1) if mc and accepted_format(mc.group(1), data) is not None else t
+                texts = sorted({uncut(t) for t in texts})
             sides.append((texts, [fmt(t, f.params[1]) for t in texts]))
         (ct, cf), (dt, df) = sides
         if len(cf) != 1 or len(df) != 1 or cf[0] is None or df[0] is None:
@@ -494,3 +549,38 @@ def literal_time(rep, prog, lit):
         goodb = ('%s.bytes_to_int(%s)' % (bme, bv), "int.from_bytes(%s, 'big')" % bv, "int.from_bytes(%s, byteorder='big')" % bv)
         rep.check(len(stored) == 1 and stored[0] in goodb, 'C20.6', 'LiteralData.mtime (bytes)', '%s' % stored, 'the four octets are one big-endian number',
                   where=sb.where)
+
+
+# ------------------------------------------------------------------------------------------------ packet length codec (shared family)
+class _Relabel(object):
+    """Reports a shared rule family under this property's rule id."""
+    def __init__(self, rep, rid):
+        self.rep, self.rid = rep, rid
+
+    def __getattr__(self, k):
+        return getattr(self.rep, k)
+
+    def check(self, cond, rid, *a, **kw):
+        return self.rep.check(cond, self.rid, *a, **kw)
+
+    def violation(self, rid, *a, **kw):
+        return self.rep.violation(self.rid, *a, **kw)
+
+    def ok(self, rid, *a, **kw):
+        return self.rep.ok(self.rid, *a, **kw)
+
+    def error(self, rid, *a, **kw):
+        return self.rep.error(self.rid, *a, **kw)
+
+
+def length_codec(rep, prog):
+    """C20.7: message packets of any length encoding parse to the same content - the packet-header length codec rules of C09
+    (new-format thresholds and formulas, width selection, tag octet and partial-body-length chains with 1-, 2- and 5-octet
+    continuations), evaluated by the checker's finite-point evaluator, reported here."""
+    from rules import C09
+    P = _Relabel(rep, 'C20.7')
+    H = prog.cls('pgpy.types', 'Header')
+    B = C09.Bench(P, prog)
+    C09.new_format(P, prog, H, B)
+    C09.widths(P, prog, H, B)
+    C09.tag_octet(P, prog, B)
